@@ -84,6 +84,8 @@ class PathDomain(Domain):
             return A("CONFIG")
         return self.OTHER
 
+    fstring_is_concat = True
+
     def fstring(self, parts):
         return self.unknown(parts)
 
@@ -390,7 +392,7 @@ def p2(ctx):
                     continue
                 nsites += 1
                 for a in c.args[1:]:
-                    v = flat(an.ev(fi, n, a))
+                    v = flat(an.ev_at(fi, n, a))
                     bad = v - P2_OK
                     path = an.explain(fi, n, a, set(bad)) if bad else []
                     obs.append(ctx.ob(not bad, fi.qualname, where(fi, n), "os.path.join(%s, %s)" % (base, src(a)),
